@@ -1,12 +1,13 @@
 """C07: incremental APIs invariant under chunking, aliasing, copying and re-init."""
 from props._gen import run_matrix, replay_generic, diverse_specs, wide_specs, with_args, H
 
-RULE = ('every incremental interface (hash/hasha update; xof/xofa, prf, kmac/kmaca, kdf/kdfa absorb+squeeze; hmac/hmaca update; hkdf/hkdfa expand; incremental AEAD encrypt/decrypt x3) driven with random compositions of input and output (empty parts, < rate, = rate, > rate, one byte at a time, all at once), in == out for AEAD blocks, a state copy taken at a random step and continued in lock-step, and re-init after an arbitrary prefix history; result must equal the one-shot call (itself tied to the reference); distinct = (build, alg, in-class, out-class, history kind)')
+RULE = ('every incremental interface (hash/hasha update; xof/xofa, prf, kmac/kmaca, kdf/kdfa absorb+squeeze; hmac/hmaca update; hkdf/hkdfa expand; incremental AEAD encrypt/decrypt x3) driven with random compositions of input and output (empty parts, < rate, = rate, > rate, one byte at a time, all at once), in == out for AEAD blocks, a state copy taken at a random step and continued in lock-step, and re-init after an arbitrary prefix history; multi-packet encrypt/decrypt sessions on one state (each packet vs the one-shot call under the nonce the session shows); result must equal the one-shot call (itself tied to the reference); distinct = (build, alg, in-class, out-class, history kind)')
 ASSUME = ['one-shot results are tied to the reference by C01..C05 in the same run; a one-shot mismatch is attributed to that property, not C07']
 
 
 def harnesses():
-    return [with_args(H['sym'], 'sym', ['--arg', 'C07'], 40000, 1000000), with_args(H['aead'], 'aead', ['--arg', 'enc:C07'], 20000, 300000), with_args(H['aead'], 'aead', ['--arg', 'dec:C07'], 300, 6000)]
+    return [with_args(H['sym'], 'sym', ['--arg', 'C07'], 40000, 1000000), with_args(H['aead'], 'aead', ['--arg', 'enc:C07'], 20000, 300000), with_args(H['aead'], 'aead', ['--arg', 'dec:C07'], 300, 6000),
+            with_args(H['aead'], 'aead', ['--arg', 'sess:C07'], 1200, 40000)]
 
 
 def run(ctx):
